@@ -10,5 +10,6 @@ PROP = dict(
     assumptions=[],
     units=[
         R("dist", "B", "./internal/stats", "TestC12Dist", (4000, 4), (200000, 16)),
+        R("beta", "B", "./internal/stats", "TestC12Beta", (6000, 2), (300000, 16)),
     ],
 )
